@@ -35,6 +35,7 @@ def parseAtom : List String → Option Atom
   | "istring" :: n :: rest => some (.istring ((rest.take (nat! n)).map u8!))
   | ["utf8Range", f, lo, hi] => some (.utf8Range (f == "1") (nat! lo) (nat! hi))
   | ["maxDigits", mx] => some (.maxDigits (nat! mx))
+  | ["repOne", lo, hi, c] => some (.repOne (nat! lo) (nat! hi) (u8! c))
   | ["bytes", n] => some (.bytes (nat! n))
   | ["eof"] => some .eof
   | ["bof"] => some .bof
